@@ -1,7 +1,7 @@
 //! The process seam: a drop-in for the parts of `std::process` a program uses to run children, backed by the
 //! simulation kernel. Types that carry no OS resource (`ExitStatus`, `ExitCode`, `Output`) are the real std types.
 
-use crate::kernel::{self, Endpoint};
+use crate::kernel::{self, Attempt, Endpoint, Kernel};
 use ::std::ffi::{OsStr, OsString};
 use ::std::io::{self, Read, Write};
 use ::std::os::unix::process::ExitStatusExt;
@@ -186,13 +186,55 @@ pub struct ChildStderr {
     pipe: usize,
 }
 
+/// Runs a blocking operation. With a single-threaded compiler "no generator can take a step" is a deadlock at once
+/// (deterministic). If the compiler has started threads of its own, one of them may still unblock this one: the
+/// kernel lock is released between attempts and the deadlock is only declared after the other threads had two
+/// seconds of real time without any change in the simulated world.
+fn blocking<R>(mut attempt: impl FnMut(&mut Kernel, bool) -> Attempt<R>) -> Option<R> {
+    let mut first = true;
+    let mut last_progress: Option<u64> = None;
+    let mut waited_us: u64 = 0;
+    let threads = crate::raw::thread_count();
+    loop {
+        let a = kernel::with(|k| {
+            k.max_threads = k.max_threads.max(threads);
+            attempt(k, first)
+        })?;
+        first = false;
+        match a {
+            Attempt::Done(r) => return Some(r),
+            Attempt::Stuck { progress, detail } => {
+                if crate::raw::thread_count() <= 1 {
+                    // Nobody else exists NOW. A helper thread that has just finished may still have changed the
+                    // simulated world after this attempt was made: only an unchanged world is a deadlock.
+                    let unchanged = kernel::with(|k| k.progress == progress).unwrap_or(true);
+                    if unchanged {
+                        kernel::with(|k| k.die_hang(detail.clone()));
+                    }
+                    continue;
+                }
+                if last_progress != Some(progress) {
+                    last_progress = Some(progress);
+                    waited_us = 0;
+                }
+                if waited_us > 2_000_000 {
+                    let d = format!("{detail} (the compiler's other threads were given 2 s and changed nothing)");
+                    kernel::with(|k| k.die_hang(d.clone()));
+                }
+                ::std::thread::sleep(::std::time::Duration::from_micros(500));
+                waited_us += 500;
+            }
+        }
+    }
+}
+
 fn seam_gone() -> io::Error {
     io::Error::new(io::ErrorKind::Other, "simstd: kernel not available")
 }
 
 impl Write for ChildStdin {
     fn write(&mut self, buf: &[u8]) -> io::Result<usize> {
-        match kernel::with(|k| k.stdin_write(self.gen, self.pipe, buf)) {
+        match blocking(|k, first| k.stdin_write(self.gen, self.pipe, buf, first)) {
             None => Err(seam_gone()),
             Some(Ok(n)) => Ok(n),
             Some(Err(errno)) => Err(io::Error::from_raw_os_error(errno)),
@@ -205,7 +247,7 @@ impl Write for ChildStdin {
 
 impl Write for &ChildStdin {
     fn write(&mut self, buf: &[u8]) -> io::Result<usize> {
-        match kernel::with(|k| k.stdin_write(self.gen, self.pipe, buf)) {
+        match blocking(|k, first| k.stdin_write(self.gen, self.pipe, buf, first)) {
             None => Err(seam_gone()),
             Some(Ok(n)) => Ok(n),
             Some(Err(errno)) => Err(io::Error::from_raw_os_error(errno)),
@@ -224,7 +266,7 @@ impl Drop for ChildStdin {
 
 impl Read for ChildStdout {
     fn read(&mut self, buf: &mut [u8]) -> io::Result<usize> {
-        match kernel::with(|k| k.pipe_read(self.gen, 1, self.pipe, buf)) {
+        match blocking(|k, first| k.pipe_read(self.gen, 1, self.pipe, buf, first)) {
             None => Err(seam_gone()),
             Some(Ok(n)) => Ok(n),
             Some(Err(errno)) => Err(io::Error::from_raw_os_error(errno)),
@@ -240,7 +282,7 @@ impl Drop for ChildStdout {
 
 impl Read for ChildStderr {
     fn read(&mut self, buf: &mut [u8]) -> io::Result<usize> {
-        match kernel::with(|k| k.pipe_read(self.gen, 2, self.pipe, buf)) {
+        match blocking(|k, first| k.pipe_read(self.gen, 2, self.pipe, buf, first)) {
             None => Err(seam_gone()),
             Some(Ok(n)) => Ok(n),
             Some(Err(errno)) => Err(io::Error::from_raw_os_error(errno)),
@@ -279,7 +321,7 @@ impl Child {
     pub fn wait(&mut self) -> io::Result<ExitStatus> {
         // like std: the child's stdin is closed first so that a child waiting for input can finish
         drop(self.stdin.take());
-        match kernel::with(|k| k.wait(self.handle)) {
+        match blocking(|k, first| k.wait(self.handle, first)) {
             None => Err(seam_gone()),
             Some(Ok(raw)) => Ok(ExitStatus::from_raw(raw)),
             Some(Err(e)) => Err(io::Error::from_raw_os_error(e)),
@@ -299,7 +341,7 @@ impl Child {
         let out = self.stdout.take();
         let err = self.stderr.take();
         let (op, ep) = (out.as_ref().map(|o| o.pipe), err.as_ref().map(|e| e.pipe));
-        let r = kernel::with(|k| k.wait_with_output(self.handle, op, ep));
+        let r = blocking(|k, first| k.wait_with_output(self.handle, op, ep, first));
         // the read ends are closed by the kernel; do not close them a second time
         ::std::mem::forget(out);
         ::std::mem::forget(err);
